@@ -53,6 +53,22 @@ theorem eq_trace_as_modelled :
 theorem typed_eq_as_modelled :
     RotoV.Gen.C16.typedEqPtrEqFirst = true ∧ RotoV.Gen.C16.typedEqOrdered = true := by decide
 
+/-- the Rust-side walks over the whole buffer (`List::to_vec`, the typed `==`)
+    happen inside the guards they take: the slice is built from the guard and
+    every element is cloned / compared before the guard goes (fails to check
+    when the walk is moved into a helper whose guard is gone when it returns) —
+    which is why `Op.toVec` and `Op.eq` read the elements in the step that
+    holds the lock(s) -/
+theorem rust_side_walks_under_guard :
+    RotoV.Gen.C16.toVecUnderGuard = true ∧ RotoV.Gen.C16.typedEqWalkUnderGuards = true := by decide
+
+/-- the model has steps for EVERY function above the lock (module `ffi`, the
+    impls of `List`, `IntoIter`, `ErasedList`; enumerated from the source on
+    every run) that takes a list's lock or reaches the element buffer: a new
+    helper through which element memory is reached is not silently outside
+    the theorems (fails to check, and the check names the function) -/
+theorem every_locking_function_is_modelled : RotoV.Gen.C16.unmodelledLockingFns = 0 := by decide
+
 /-! ### T1 — linearizability and pointer safety, for all threads / programs / schedules -/
 
 /-- **No stale pointer is ever read, and no element pointer outlives its
@@ -226,6 +242,9 @@ example : resultsAfter RotoV.Gen.C16.facts [[1], [2]] [[.concat 0 1], [.concat 1
 example : seqConsistent [[1, 2, 3, 4]] [[.push 0 7], [.concat 0 0]]
     [[.unit], [.list [1, 2, 3, 4, 7, 1, 2, 3, 4, 7]]] = true := by decide
 example : Facts.asWritten ≠ Facts.guarded := by decide
+/-- `every_locking_function_is_modelled` counts something: the enumeration finds
+    the functions that do take the lock -/
+example : RotoV.Gen.C16.modelledLockingFns ≥ 14 := by decide
 /-- `no_deadlock` is about something: the schedule that deadlocks as written is
     not even a schedule any more (thread 1 is blocked until thread 0 is done) -/
 example : (run RotoV.Gen.C16.facts (init [[1], [2]] [[.eq 0 1], [.eq 1 0]]) [0, 1]).isSome = false := by
